@@ -141,7 +141,13 @@ pub fn first_diff(a: &[u8], b: &[u8]) -> String {
     let kb = canon_key(b);
     for x in &ka {
         if !kb.contains(x) {
-            return format!("only in A: {}", x.chars().take(300).collect::<String>());
+            // the block of B that starts with the same line, if there is one
+            let head = x.lines().next().unwrap_or("");
+            let twin = kb.iter().find(|y| y.lines().next().unwrap_or("") == head);
+            return match twin {
+                Some(y) => format!("differs: A has `{}` / B has `{}`", x.chars().take(400).collect::<String>(), y.chars().take(400).collect::<String>()),
+                None => format!("only in A: {}", x.chars().take(300).collect::<String>()),
+            };
         }
     }
     for x in &kb {
